@@ -273,6 +273,8 @@ def run(cx: Cx):
         first_it = p.events.index(iters[0]) if iters else len(p.events)
         succ_conds.append(f_and(*[e.data['formula'] for e in p.events[:first_it + 1] if e.kind == 'cond' and
                                   (p.events.index(e) < first_it)]))
+        if len(loops) == 0 and len(calls) == 1 and implies(p.cond, mk_cmp(n, '==', Num(Fraction(1)))) is None:
+            continue        # a fast path for the common single step: n == 1 established, one step taken
         if len(loops) != 1:
             cx.violation('R-ITER', mex.qualname, 'single-range-n-loop',
                          f"Model.execute's accepting path has {len(loops)} loops (expected one loop of n steps)",
